@@ -43,7 +43,9 @@ def append_events(nq):
 
 
 def all_events(nq):
-    return append_events(nq) + [('sym',), ('apply',), ('univ',)]
+    # histories additionally use the identity gate (appends nothing) and the CNOT alias of CX
+    extra = [('I', 0)] + ([('CNOT', 0, 1)] if nq >= 2 else [])
+    return append_events(nq) + extra + [('sym',), ('apply',), ('univ',)]
 
 
 _TABLE_CACHE = {}
@@ -142,7 +144,10 @@ def run_history(numqi, out, hist, site='hist'):
             n_query += 1
         else:
             getattr(circ, ev[0])(*ev[1:])
-            gates.append(tuple(ev))
+            if ev[0] == 'CNOT':
+                gates.append(('CX',) + tuple(ev[1:]))
+            elif ev[0] != 'I':
+                gates.append(tuple(ev))
             out.trans()
     out.state()
     if gates:
